@@ -24,6 +24,7 @@ import Proofs.OpGuardSetBlock
 import Proofs.OpGuardSbtWalk
 import Proofs.OpGuardB
 import Proofs.FitDeleteNorm
+import Proofs.GapTailFits
 import PM.OpGuardNode
 import Props.C01
 import Props.C12
@@ -4322,6 +4323,151 @@ theorem editHistory_undo_bmp' (S : Schema) (htr : compatTransB S = true) (htl : 
     (editOps_residual' S htr htl hdet hfill hwrap hlab hleaf hts hcl hst ops (Tr.init doc) rfl rfl ⟨hd, hn⟩ hb
       hall hres)
 
+/-- **every replace-around answer of `replace_step` fits back** (schema with `TextLoop`, document valid, in normal
+    form, BMP; the step applied): its gap `[to, to.end())` runs to the end of the parent of `to` — the token behind
+    it is that node's closing token (`replaceStep_range`) — so after `remove_between` the gap goes back at the end
+    of that node's remaining content, where `insert_into`'s `can_replace` check sees the node's original content
+    with at most one text child doubled (`gapFitsBack_of_tail`, Proofs/GapTailFits.lean).  The gap may start
+    inside a text child (not `gapClean`); finding C04-around-text-gap needs a schema without `TextLoop`. -/
+theorem fit_around_gapFitsBack (S : Schema) (htl : TextLoop S) (doc doc' : Node) (f t : Nat) (req : Slice)
+    (hd : S.checkNode doc = true) (hn : fnorm doc.kids = true) (hb : bmpDoc doc = true) (hft : f ≤ t) (s : Step)
+    (hr : replaceStep S doc f t req = .ok (some s)) (ha : S.apply s doc = .ok doc') :
+    AroundFitsBack S s doc := by
+  rcases replaceStep_range S doc f t req s hr with ⟨T, sl', rfl, _⟩ | ⟨T, G2, sl', ins, rfl, h1, h2, h3, h4⟩
+  · trivial
+  · show gapFitsBack S doc f T t G2 = true
+    have hg : f ≤ t ∧ t ≤ G2 ∧ G2 ≤ T := ⟨hft, h1, by omega⟩
+    obtain ⟨inv, hi⟩ := invert_ok_replaceAround_full S doc doc' f T t G2 sl' ins false hn hg
+      (Or.inr (alignedAt_of_bmp doc.kids t hb)) ha
+    obtain ⟨gap, inserted, hgap, hgo1, hgo2, _, _⟩ := apply_replaceAround_parts S doc doc' f T t G2 sl' ins false ha
+    simp only [Schema.invert] at hi
+    cases hsl : doc.slice f T with
+    | error e => simp [hsl] at hi
+    | ok old =>
+      simp only [hsl] at hi
+      cases hrm : old.removeBetween (t - f) (G2 - f) with
+      | error e => simp [hrm] at hi
+      | ok rem =>
+        exact gapFitsBack_of_tail S htl doc f T t G2 old rem gap hd hn ⟨hft, h1, h2⟩ h3 hsl hgap ⟨hgo1, hgo2⟩ hrm
+          (h4 G2 (Nat.le_refl _) h2)
+
+/-- the slice of a recorded replace / replace-around step is in normal form -/
+def RecordedNorm (s : Step) : Prop :=
+  match s with
+  | .replace _ _ sl _ => fnorm sl.content = true
+  | .replaceAround _ _ _ _ sl _ _ => fnorm sl.content = true
+  | _ => True
+
+instance (s : Step) : Decidable (RecordedNorm s) := by
+  unfold RecordedNorm; split <;> infer_instance
+
+/-- **what is asked of an operation of an editing history, final form** (schema with `TextLoop`: no `gapFitsBack`).
+    `replace(f, t, slice)`: `f ≤ t`, `nodeAttrsOK` of the current document, and by class
+    * **deletion** (`Slice.empty`): nothing more;
+    * **typing / inline leaves** (`inlineLeaves`, `closedValid`) with BMP text: the emitted slice in normal form;
+    * **loosely valid / cut from a valid document**: the run hypothesis `unplacedWfRun`, BMP text in the slice (or a
+      BMP result), the emitted slice in normal form.
+    Every other operation: `MixedResidual`. -/
+def EditHyps (S : Schema) (op : Op) (tr tr1 : Tr) : Prop :=
+  match op with
+  | .replace f t sl => f ≤ t ∧ S.nodeAttrsOK tr.doc = true ∧
+      (sl = Slice.empty ∨
+       (sl.inlineLeaves S = true ∧ sl.closedValid S = true ∧ sliceBmp sl = true ∧
+          HistAll (fun s _ _ => RecordedNorm s) (appended tr tr1) tr1.doc) ∨
+       (((sl.looseValid S = true ∧ sl.wf = true) ∨ ∃ src a b, C01.Valid S src ∧ src.slice a b = .ok sl) ∧
+          unplacedWfRun S tr.doc f t sl = true ∧ (sliceBmp sl = true ∨ bmpDoc tr1.doc = true) ∧
+          HistAll (fun s _ _ => RecordedNorm s) (appended tr tr1) tr1.doc))
+  | op => MixedResidual S op tr tr1
+
+/-- `EditHyps` implies `EditResidual'` on a valid BMP document in normal form, for a schema with `TextLoop` -/
+theorem editResidual'_of_hyps (S : Schema) (htl : TextLoop S)
+    (op : Op) (tr tr1 : Tr) (hlen : tr.steps.length = tr.docs.length) (hI : FamilyInv S tr.doc)
+    (hb : bmpDoc tr.doc = true) (h : tr.runOp S op = some tr1) (hres : EditHyps S op tr tr1) :
+    EditResidual' S op tr tr1 := by
+  cases op with
+  | replace f t sl =>
+    obtain ⟨hft, hattrs, hk⟩ := hres
+    refine ⟨hft, hattrs, ?_⟩
+    have key : ∀ (P : Step → Prop), HistAll (fun s _ _ => P s) (appended tr tr1) tr1.doc →
+        HistAll (fun s d _ => P s ∧ AroundFitsBack S s d) (appended tr tr1) tr1.doc := by
+      intro P hP
+      rcases replaceOp_recorded S tr tr1 hlen f t sl h with ⟨e, _⟩ | ⟨s, hr, e, ha⟩
+      · rw [e]; trivial
+      · rw [e] at hP ⊢
+        exact ⟨⟨hP.1, fit_around_gapFitsBack S htl tr.doc tr1.doc f t sl hI.1 hI.2 hb hft s hr ha⟩, trivial⟩
+    have conv : HistAll (fun s _ _ => RecordedNorm s) (appended tr tr1) tr1.doc →
+        HistAll (fun s d _ => RecordedReplaceOk S s d) (appended tr tr1) tr1.doc := by
+      intro hP
+      refine histAll_mono ?_ _ _ (key _ hP)
+      intro s d _ ⟨h1, h2⟩
+      cases s with
+      | replace _ _ _ _ => exact h1
+      | replaceAround _ _ _ _ _ _ _ => exact ⟨h1, h2⟩
+      | _ => trivial
+    rcases hk with rfl | ⟨hsl, hslv, hsb, hrec⟩ | ⟨hk, hrun, hb1, hrec⟩
+    · refine Or.inl ⟨rfl, ?_⟩
+      have := key (fun _ => True) (histAll_mono (fun _ _ _ _ => trivial) _ _
+        (show HistAll (fun _ _ _ => True) (appended tr tr1) tr1.doc from by
+          generalize appended tr tr1 = l
+          induction l with
+          | nil => trivial
+          | cons x xs ih => exact ⟨trivial, ih⟩))
+      exact histAll_mono (fun s d _ hh => hh.2) _ _ this
+    · exact Or.inr (Or.inl ⟨hsl, hslv, hsb, conv hrec⟩)
+    · exact Or.inr (Or.inr ⟨hk, hrun, hb1, conv hrec⟩)
+  | _ => exact hres
+
+/-- on a BMP document, an editing run with `EditHyps` meets `OpResidual` -/
+theorem editOps_hyps (S : Schema) (htr : compatTransB S = true) (htl : TextLoop S)
+    (hdet : PM.C11.detB S = true) (hfill : S.fillersOKB = true)
+    (hwrap : S.wrapOKB = true) (hlab : S.labelsOKB = true) (hleaf : PM.FromDom.leafOkB S = true)
+    (hts : textStableC S = true) (hcl : S.closableB = true) (hst : PM.FromDom.textStableB S = true) :
+    ∀ (ops : List Op) (tr : Tr), tr.steps.length = tr.docs.length → tr.maps.length = tr.steps.length →
+    FamilyInv S tr.doc → bmpDoc tr.doc = true →
+    (∀ op ∈ ops, editOp op = true) → OpsAll S (EditHyps S) tr ops → OpsAll S (OpResidual S) tr ops
+  | [], _, _, _, _, _, _, _ => trivial
+  | op :: ops, tr, hlen, hml, hI, hb, hall, hres => by
+    simp only [OpsAll] at hres ⊢
+    cases h1 : tr.runOp S op with
+    | none => trivial
+    | some tr1 =>
+      simp only [h1] at hres ⊢
+      have hop := hall op (List.mem_cons_self ..)
+      have hres0 := editResidual'_of_hyps S htl op tr tr1 hlen hI hb h1 hres.1
+      have hres1 := editResidual_of' S hdet hfill hwrap hlab hleaf hts hcl hst op tr tr1 hlen hI hb h1 hres0
+      obtain ⟨hr1, hb1⟩ := editOp_residual S htr htl hdet hfill hwrap hlab hleaf hts hcl hst op tr tr1 hop hlen hml
+        hI hb h1 hres1
+      refine ⟨hr1, ?_⟩
+      obtain ⟨h2, e1, l1, n1, r1⟩ := (Tr.runOp_grows op h1).hist hlen
+      have g1 := op_family S op tr tr1 hlen hI h1 hr1
+      rw [appended_eq e1] at g1
+      have hI1 : FamilyInv S tr1.doc :=
+        (chain_of_invariant S (FamilyInv S) (FamilyGuard S) (family_step S htr htl) h2 tr1.doc
+          (by rw [n1]; exact hI) r1 g1).2
+      exact editOps_hyps S htr htl hdet hfill hwrap hlab hleaf hts hcl hst ops tr1 l1
+        ((Tr.runOp_grows op h1).maps_len hml) hI1 hb1
+        (fun o ho => hall o (List.mem_cons_of_mem _ ho)) hres.2
+
+/-- **an editing history is undone exactly — operation-level hypotheses only.**  Structural edits, node-level edits,
+    mark operations, deletions, typing / inserting inline leaves, `replace` with a loosely valid slice or a slice cut
+    from a valid document, in any order.  Schema guards: all Boolean, all true of the bundled family.  `doc` valid,
+    in normal form, BMP.  Per operation `EditHyps`: for a **deletion** `f ≤ t` and `nodeAttrsOK` of the current
+    document, nothing about the recorded step; for the other `replace` classes additionally BMP text, the run
+    hypothesis `unplacedWfRun` (loosely valid / cut slices) and the normal form of the emitted slice.  No payload,
+    shape, pair-alignment or `gapFitsBack` hypothesis; nothing about the Fitter's internal state. -/
+theorem editHistory_undo (S : Schema) (htr : compatTransB S = true) (htl : TextLoop S)
+    (hdet : PM.C11.detB S = true) (hfill : S.fillersOKB = true)
+    (hwrap : S.wrapOKB = true) (hlab : S.labelsOKB = true) (hleaf : PM.FromDom.leafOkB S = true)
+    (hts : textStableC S = true) (hcl : S.closableB = true) (hst : PM.FromDom.textStableB S = true)
+    (doc : Node) (ops : List Op) (tr' : Tr) (hd : S.checkNode doc = true) (hn : fnorm doc.kids = true)
+    (hb : bmpDoc doc = true) (hall : ∀ op ∈ ops, editOp op = true)
+    (h : (Tr.init doc).runOps S ops = some tr')
+    (hres : OpsAll S (EditHyps S) (Tr.init doc) ops) :
+    tr'.undo S = .ok doc ∧ FamilyInv S tr'.doc :=
+  opHistory_undo S htr htl doc ops tr' hd hn h
+    (editOps_hyps S htr htl hdet hfill hwrap hlab hleaf hts hcl hst ops (Tr.init doc) rfl rfl ⟨hd, hn⟩ hb
+      hall hres)
+
 /-! #### non-vacuity of `editHistory_undo_bmp'`: schema `doc: para*`, `para: text*`, document `doc(para("ab"))` -/
 
 private def nvNt (name : String) (dfa : Array DfaState) : NodeType :=
@@ -4404,5 +4550,15 @@ example : ∃ tr', (Tr.init nvDoc).runOps nvS [.replace 1 2 Slice.empty] = some 
       simp only [Except.ok.injEq, Option.some.injEq] at hs
       subst hs
       exact ⟨trivial, trivial⟩
+  · trivial
+/-- **non-vacuity of `editHistory_undo`, end to end**: the deletion asks for nothing about the recorded step -/
+example : ∃ tr', (Tr.init nvDoc).runOps nvS [.replace 1 2 Slice.empty] = some tr' ∧ tr'.undo nvS = .ok nvDoc := by
+  obtain ⟨tr1, h, _⟩ := nv_run
+  refine ⟨tr1, h, (editHistory_undo nvS (by decide) (PM.Family.textLoop_of_B _ (by decide)) (by decide)
+    (by decide) (by decide) (by decide) (by decide) (by decide) (by decide) (by decide) nvDoc _ tr1 (by decide)
+    (by decide) (by decide) (by decide) h ?_).1⟩
+  simp only [OpsAll]
+  split
+  · exact ⟨⟨by decide, rfl, Or.inl rfl⟩, trivial⟩
   · trivial
 end PM.C04
